@@ -114,6 +114,22 @@ let handle (w : string list) : string =
       (match Model.verify (hbuf ()) (unhex f) (unhex k) with
        | Ok c -> if int_of_n c = 0 then "OK -" else "FAIL " ^ string_of_int (int_of_n c)
        | Fail c -> "FAIL " ^ string_of_int (int_of_n c) | Crash w -> "CRASH " ^ string_of_int (int_of_nat w) | Hang -> "HANG")
+  | ["conc"; t; pad; inp; sched] ->
+      (* model execution of the abstract pipeline under a given schedule: prints the event log *)
+      let t = nat_of_int (int_of_string t) and pad = (pad = "1") in
+      let sched = if sched = "-" then [] else List.map (fun x -> nat_of_int (int_of_string x)) (String.split_on_char ',' sched) in
+      (match Model.tag_run (buf ()) t pad (unhex inp) sched with
+       | None -> "BLOCKED"
+       | Some (st, log) ->
+           let b = Buffer.create 4096 in
+           List.iter (fun ((tid, nen), evs) ->
+             Buffer.add_string b (Printf.sprintf "C%d/%d" (int_of_nat tid) (int_of_nat nen));
+             List.iter (fun ((k, o), v) -> Buffer.add_string b (Printf.sprintf ",%d:%d:%d" (int_of_nat k) (int_of_nat o) (int_of_nat v))) evs;
+             Buffer.add_char b ';') log;
+           let out = List.concat (Model.output st) in
+           Printf.sprintf "%s enabled=%d crashed=%s out=%s log=%s"
+             (if Model.terminal st then "TERMINAL" else "RUNNING") (int_of_nat (Model.enabled_count Model.tag_tr Model.tag_event (buf ()) pad st))
+             (match Model.crashed st with None -> "-" | Some w -> string_of_int (int_of_nat w)) (hex out) (Buffer.contents b))
   | _ -> "?"
 
 let () =
